@@ -12,6 +12,17 @@
     unknown id), up to its machine id. Framework-wide fraction limits need not
     be unset: the projected history keeps the global budgets equal.
     [C10_solo_total] adds that both runs exist for valid configurations.
+    [C10_solo_any] removes the restriction to deterministic sampling: for ANY
+    machine at position i (probabilistic transitions, any distributions) next
+    to any neighbours, with no machine able to signal, there is a list l of
+    draws -- an order-preserving sub-sequence of the tape prefix the combined
+    run consumed: the machine's own draws -- such that the machine running
+    alone on ANY tape that starts with l consumes exactly l and returns, call
+    by call, exactly the actions it returned in the combined run. Together
+    with C05 (the result is a function of the inputs and the tape read) this
+    is the property for every machine that never signals and is never
+    signalled: fed the same random outcomes, it behaves the same alone or next
+    to any neighbours, in any position.
     Proved by a two-run simulation ([NonInterferenceSolo.Rel]) using the frame
     lemmas below: [C10_step_frame_partial] / [C10_decrement_frame_partial]
     (a step of machine j leaves the runtime and pending action of every other
@@ -20,7 +31,7 @@
     of the reported events in both runs). *)
 From MB Require Import Model.Framework.
 From MB Require Import Proofs.FrameworkAcct Proofs.AcctSpec Proofs.PaddingBudget Proofs.BlockingBudget Proofs.NonInterference.
-From MB Require Import Model.Validate Proofs.FrameworkInv Proofs.NonInterferenceSolo.
+From MB Require Import Model.Validate Proofs.FrameworkInv Proofs.NonInterferenceSolo Proofs.NonInterferenceProb.
 Open Scope N_scope.
 
 Theorem C10_step_frame_partial : forall c tp fuel s j ev s' b i,
@@ -75,3 +86,35 @@ Theorem C10_solo_total : forall c i m tp tp1 t0 h,
     map (acts_of i) outs = map (map (rename_to i)) outs1.
 Proof. exact solo_equals_combined_full_total. Qed.
 Print Assumptions C10_solo_total.
+
+Theorem C10_solo_any : forall c i m tp t0 h s0 s outs,
+  nth_error (machines c) i = Some m -> no_signal_b c = true ->
+  fnew c tp t0 = Ok s0 -> run c tp s0 h = Ok (s, outs) ->
+  exists l : list N,
+    sublist l (map tp (seq 0 (pos s))) /\
+    forall tp1, tape_starts_with tp1 l ->
+      exists s10 s1 outs1,
+        fnew (solo_cfg c m) tp1 t0 = Ok s10 /\
+        run (solo_cfg c m) tp1 s10 (proj_hist i h) = Ok (s1, outs1) /\
+        pos s1 = length l /\
+        map (acts_of i) outs = map (map (rename_to i)) outs1.
+Proof. exact solo_equals_combined_prob. Qed.
+Print Assumptions C10_solo_any.
+
+(** non-vacuity: a machine with probability-0.5 transitions and a Uniform[0,100]
+    timeout between two probabilistic neighbours; the combined run returns one
+    action per call for it, its own draws are 8 of the 24 consumed, and the
+    theorem's l is non-empty *)
+Example C10_solo_any_nonvacuous : exists s0 s outs l,
+  fnew pn_cfg sn_tp 0%Z = Ok s0 /\ run pn_cfg sn_tp s0 pn_hist = Ok (s, outs) /\
+  map (acts_of 1) outs =
+    [[TSendPadding 1 7 false false]; [TSendPadding 1 22 false false]; [TSendPadding 1 100 false false]] /\
+  l <> [] /\
+  sublist l (map sn_tp (seq 0 (pos s))) /\
+  forall tp1, tape_starts_with tp1 l ->
+    exists s10 s1 outs1,
+      fnew (solo_cfg pn_cfg pm_machine) tp1 0%Z = Ok s10 /\
+      run (solo_cfg pn_cfg pm_machine) tp1 s10 (proj_hist 1 pn_hist) = Ok (s1, outs1) /\
+      pos s1 = length l /\
+      map (acts_of 1) outs = map (map (rename_to 1)) outs1.
+Proof. exact pn_instance. Qed.
